@@ -13,10 +13,10 @@ Definition sym_of (o : nat) : pystr :=
   match o with 0%nat => S "." | 1%nat => S "-" | 2%nat => S "=" | 3%nat => S "#" | _ => S "$" end.
 Definition wrap (kl : pystr) : pystr := S "[" ++ kl ++ S "]".
 
-(** what one iteration of the loop does to the accumulated text: a non-single order REPLACES it *)
-Definition fb_step (acc : pystr) (klo : pystr * nat) : pystr :=
-  (if Nat.eqb (snd klo) 1 then acc else sym_of (snd klo)) ++ wrap (fst klo).
-Definition fb_spec (L : list (pystr * nat)) : pystr := fold_left fb_step L [].
+Definition symtext (o : nat) : pystr := if Nat.eqb o 1 then [] else sym_of o.
+(** the writing Appendix A asks for: every descriptor keeps its own symbol (nothing for order 1) *)
+Definition fb_item (klo : pystr * nat) : pystr := symtext (snd klo) ++ wrap (fst klo).
+Definition fb_expected (L : list (pystr * nat)) : pystr := concat (map fb_item L).
 
 Lemma py_index_last kl c : py_index (kl ++ [c]) (-1) = Ok [c].
 Proof.
@@ -38,43 +38,31 @@ Qed.
 Lemma sym_is_dash o : (o <= 4)%nat -> str_eqb (sym_of o) (S "-") = Nat.eqb o 1.
 Proof. intros H. destruct o as [|[|[|[|[|o]]]]]; try lia; reflexivity. Qed.
 
-(** the generated function computes [fb_spec] on every list of descriptors with orders 0..4 *)
+(** FULL theorem (holds since fix 1a5deb0 `bond_str += order_symb`): the generated function writes ANY
+    descriptor list with orders 0..4 as the concatenation of sym ++ "[" ++ kind label ++ "]" *)
 Theorem format_bonding_spec : forall L : list (pystr * nat),
   Forall (fun klo => (snd klo <= 4)%nat) L ->
-  format_bonding (map (fun klo => mk_descr (fst klo) (snd klo)) L) = Ok (fb_spec L).
+  format_bonding (map (fun klo => mk_descr (fst klo) (snd klo)) L) = Ok (fb_expected L).
 Proof.
-  intros L HL. unfold format_bonding, fb_spec, unwrap_return.
+  intros L HL. unfold format_bonding, unwrap_return.
   cbn [bind ret id].
   match goal with |- context [py_for _ _ ?f] => set (body := f) end.
   change (S "") with (@nil ascii).
   assert (G : forall acc, py_for (map (fun klo => mk_descr (fst klo) (snd klo)) L) acc body
-                          = Ok (RNext (fold_left fb_step L acc))).
+                          = Ok (RNext (acc ++ fb_expected L))).
   { induction HL as [|[kl o] L Ho HL IH]; intros acc.
-    - reflexivity.
-    - cbn [map py_for fst snd fold_left]. unfold body at 1. unfold mk_descr at 1 2 3.
+    - cbn. now rewrite app_nil_r.
+    - cbn [map py_for fst snd]. unfold body at 1. unfold mk_descr at 1 2 3.
       cbn [bind ret]. rewrite py_index_last. cbn [bind].
       destruct (small_digit o Ho) as [E1 E2]. rewrite E1. cbn [bind]. rewrite E2. cbn [bind].
       unfold py_ne. cbn [bind ret pyeqb PyEq_str]. rewrite sym_is_dash by assumption.
-      unfold fb_step at 2. cbn [fst snd].
+      unfold fb_expected. cbn [map concat]. unfold fb_item at 1, symtext. cbn [fst snd].
       destruct (Nat.eqb o 1); cbn [negb]; unfold py_concat; cbn [bind ret]; rewrite drop_last_snoc;
-        cbn [bind ret]; unfold wrap; rewrite <- ?app_assoc; apply IH. }
+        cbn [bind ret]; rewrite IH; unfold wrap, fb_expected; rewrite <- ?app_assoc; reflexivity. }
   rewrite G. reflexivity.
 Qed.
 
 (** ---------------------------------------------------------------- consequences *)
-Definition symtext (o : nat) : pystr := if Nat.eqb o 1 then [] else sym_of o.
-(** the writing Appendix A asks for: every descriptor keeps its own symbol *)
-Definition fb_expected (L : list (pystr * nat)) : pystr :=
-  concat (map (fun klo => symtext (snd klo) ++ wrap (fst klo)) L).
-
-Lemma fold_fb_single_orders L : Forall (fun klo => snd klo = 1%nat) L ->
-  forall acc, fold_left fb_step L acc = acc ++ concat (map (fun klo => wrap (fst klo)) L).
-Proof.
-  induction 1 as [|[kl o] L Ho HL IH]; intros acc; cbn [fold_left map concat].
-  - now rewrite app_nil_r.
-  - cbn in Ho. subst o. unfold fb_step at 2. cbn [fst snd Nat.eqb]. rewrite IH, <- app_assoc. reflexivity.
-Qed.
-
 (** exact output for lists of order-1 descriptors: "[d1][d2]..." *)
 Theorem format_bonding_order1 : forall kls : list pystr,
   format_bonding (map (fun kl => mk_descr kl 1) kls) = Ok (concat (map wrap kls)).
@@ -84,9 +72,7 @@ Proof.
     with (map (fun klo => mk_descr (fst klo) (snd klo)) (map (fun kl => (kl, 1%nat)) kls))
     by (rewrite map_map; reflexivity).
   rewrite format_bonding_spec.
-  - unfold fb_spec. rewrite fold_fb_single_orders.
-    + cbn [app]. rewrite map_map. reflexivity.
-    + apply Forall_forall. intros x Hx. apply in_map_iff in Hx as [kl [<- _]]. reflexivity.
+  - unfold fb_expected. rewrite map_map. reflexivity.
   - apply Forall_forall. intros x Hx. apply in_map_iff in Hx as [kl [<- _]]. cbn. lia.
 Qed.
 
@@ -96,42 +82,12 @@ Theorem format_bonding_single : forall kl o, (o <= 4)%nat ->
 Proof.
   intros kl o Ho. change [mk_descr kl o] with (map (fun klo => mk_descr (fst klo) (snd klo)) [(kl, o)]).
   rewrite format_bonding_spec by (constructor; [assumption|constructor]).
-  unfold fb_spec, fb_step, symtext. cbn [fold_left fst snd]. reflexivity.
+  unfold fb_expected, fb_item. cbn [map concat fst snd]. now rewrite app_nil_r.
 Qed.
 
-(** partial correctness: when only the FIRST descriptor may have an order other than 1 the output is the
-    expected writing *)
-Theorem format_bonding_first_only_partial : forall kl o rest, (o <= 4)%nat ->
-  Forall (fun klo => snd klo = 1%nat) rest ->
-  format_bonding (map (fun klo => mk_descr (fst klo) (snd klo)) ((kl, o) :: rest)) = Ok (fb_expected ((kl, o) :: rest)).
-Proof.
-  intros kl o rest Ho Hr. rewrite format_bonding_spec.
-  - f_equal. unfold fb_spec. cbn [fold_left]. rewrite fold_fb_single_orders by assumption.
-    unfold fb_expected. cbn [map concat fst snd]. unfold fb_step at 1, symtext at 1. cbn [fst snd app].
-    f_equal. f_equal.
-    apply map_ext_in. intros [k p] Hin. rewrite Forall_forall in Hr. specialize (Hr _ Hin). cbn in Hr. subst p. reflexivity.
-  - constructor; [assumption|]. eapply Forall_impl; [|exact Hr]. intros a Ha. rewrite Ha. lia.
-Qed.
-
-(** the defect, universally: everything written before a non-single descriptor is dropped *)
-Theorem format_bonding_drops_prefix : forall L1 kl o L2, o <> 1%nat ->
-  fb_spec (L1 ++ (kl, o) :: L2) = fb_spec ((kl, o) :: L2).
-Proof.
-  intros L1 kl o L2 Ho. unfold fb_spec. rewrite fold_left_app. cbn [fold_left].
-  f_equal. unfold fb_step. cbn [fst snd]. destruct (Nat.eqb_spec o 1); [contradiction|]. reflexivity.
-Qed.
-
-(** refutation of the full statement "format_bonding writes every descriptor with its symbol":
-    ["$a1"; "$b2"] is written "=[$b]" *)
-Theorem format_bonding_refuted : exists L : list (pystr * nat),
-  Forall (fun klo => (1 <= snd klo <= 3)%nat) L /\
-  exists out, format_bonding (map (fun klo => mk_descr (fst klo) (snd klo)) L) = Ok out /\ out <> fb_expected L
-              /\ out = S "=[$b]".
-Proof.
-  exists [(S "$a", 1%nat); (S "$b", 2%nat)]. split; [repeat constructor|].
-  eexists. split; [vm_compute; reflexivity|]. split; [vm_compute; discriminate|reflexivity].
-Qed.
+(** the former defect class (a non-single descriptor after the first) is written correctly now *)
 Example format_bonding_examples :
-  format_bonding [S "$a1"; S "$b2"] = Ok (S "=[$b]") /\ format_bonding [S "$2"; S ">x1"] = Ok (S "=[$][>x]")
-  /\ format_bonding [S "$0"] = Ok (S ".[$]") /\ format_bonding [S "$"] = Err EValue /\ format_bonding [S "$7"] = Err EKey.
+  format_bonding [S "$a1"; S "$b2"] = Ok (S "[$a]=[$b]") /\ format_bonding [S "$2"; S ">x1"] = Ok (S "=[$][>x]")
+  /\ format_bonding [S "$0"] = Ok (S ".[$]") /\ format_bonding [S "$"] = Err EValue /\ format_bonding [S "$7"] = Err EKey
+  /\ format_bonding [S "$3"; S "<1"; S "!A2"] = Ok (S "#[$][<]=[!A]").
 Proof. repeat split; reflexivity. Qed.
